@@ -15,6 +15,10 @@ Decided:
               decoder whatever order the caller supplied (shared with C15).
   MPT-C30d    every Ok exit of Toc::decode lies on the `bytes_read == bytes.len()` edge (no trailing bytes) in all
               three format arms.
+  GUARD-C30f  length/count consistency in the decoders is decided exactly: an equality test that relates a declared
+              count to a byte length must not compute either side by integer division (which drops the remainder and
+              accepts a length that is up to record_size - 1 bytes too long); the time-index reader multiplies the
+              count (checked) and compares for equality.
 Not decided: round-trip equality for arbitrary values."""
 from . import lib
 from .facts import Place, op_place
@@ -315,7 +319,38 @@ def _is_err_exit(fn, ex):
     return False
 
 
+DECODERS = ('io::time_index::read_track', 'CommitFooter::decode', 'HeaderCodec::decode', 'types::sketch_track::read_sketch_track', 'Toc::decode')
+
+
+def _exact_lengths(ctx, F):
+    ctx.rule('GUARD-C30f', 'decoders relate counts and byte lengths by exact equality (multiplication), never through integer division')
+    n = 0
+    for key in DECODERS:
+        fn = F.fn(key)
+        if fn is None:
+            continue
+        ctx.touch(fn, len(fn.blocks))
+        bad = None
+        eqs = 0
+        for c in lib.comparisons(fn):
+            if c.rel not in ('==', '!='):
+                continue
+            eqs += 1
+            for x in (c.sa(), c.sb()):
+                if {'Div', 'Shr'} & x.ops and (x.args or any(cc.name in ('from_le_bytes', 'from_be_bytes') for cc in x.calls)):
+                    bad = c
+        n += eqs
+        ctx.evaluations += eqs
+        if bad is not None:
+            ctx.bad('GUARD-C30f', fn, 'a length/count equality test is computed through integer division: the remainder is dropped, so an image whose declared length is a few bytes too long is '
+                    'accepted', line=bad.line, sink='Div', detail='lossy-length-check')
+        else:
+            ctx.ok('GUARD-C30f', fn, 'no equality test over a divided length (%d equality tests)' % eqs)
+    ctx.floor('GUARD-C30f', n, 4, 'equality tests in the decoders')
+
+
 def run(ctx):
+    _exact_lengths(ctx, ctx.facts())
     from . import c15
     ctx.rule('AGREE-C30e', 'time index: the writer sorts by (timestamp, frame_id); the reader validates the same lexicographic order')
     c15._key(ctx, ctx.facts(), rule='AGREE-C30e')
